@@ -31,6 +31,11 @@ def run(ctx):
     vlib.mc_check(ctx, "GcProto", "GcProto_neg_track.cfg", expect_violation="GcNeverDeletesNeeded", timeout=300, workers=4)
     vlib.mc_check(ctx, "MC_Storage", "MC_Storage.cfg", timeout=120, workers=2)
     vlib.mc_check(ctx, "MC_Storage", "MC_Storage_negF4.cfg", expect_violation="CrashNoOrphan", timeout=120, workers=2)
+    # interleaved builder / updater / GC: GcTight, NeverDeletesNeeded, NeverDeletesBuilding, OrphanIsF4Class
+    vlib.mc_check(ctx, "StorageProto", "StorageProto_code.cfg" if ctx.quick else "StorageProto_deep.cfg", timeout=900, workers=4 if ctx.quick else 8)
+    vlib.mc_check(ctx, "StorageProto", "StorageProto_negF4.cfg", expect_violation="CrashNoOrphan", timeout=120, workers=2)
+    vlib.mc_check(ctx, "StorageProto", "StorageProto_negS8.cfg", expect_violation="OrphanIsF4Class", timeout=120, workers=2)
+    vlib.mc_check(ctx, "StorageProto", "StorageProto_negInv.cfg", expect_violation="NeverDeletesBuilding", timeout=120, workers=2)
 
     ev = sc.record_histories(ctx, "fixed", sc.fixed_histories())
     ev += sc.record_random(ctx, "rand", 50 if ctx.quick else 500, 30, ctx.seed + 11)
